@@ -48,6 +48,7 @@ func registerContext(e *Engine) {
 		e.toModel("context."+n, n)
 	}
 	e.toModel("context.TODO", "Background")
+	e.toModel("(*net/http.Client).Do", "ClientDo")
 }
 
 func (e *Engine) on(name string, f func(fr *Frame, a []Value) Value) {
